@@ -18,7 +18,10 @@
                                                  JMP start; end:      break -> end, continue -> post
    CallExpr: arguments left to right,            arguments left to right, [emit_reverse], CALL entry;
    emitReverse, CALL; callee INITSLOT            callee starts with INITSLOT locals args (omitted when 0/0)
-   ReturnStmt                                    value; RET
+   ReturnStmt                                    values, last operand first (first result on top); RET
+   a, b := f(..) / a, b = f(..)                  call; PUSH n; REVERSEN; stores last target first (a declared
+                                                 target takes the next slot at that moment), _ is DROP
+   call statement                                call; one DROP per declared result
    labels + writeJumps                           targets are computed from [size_*] (code size does not
                                                  depend on the targets); absolute instruction indices *)
 From NG Require Import Common.Tactics Lang.MiniGo Lang.Target.
@@ -91,6 +94,7 @@ Fixpoint size_args (l : list expr) : nat :=
 
 Section WithEntries.
 Variable fe : nat -> nat.     (* entry point of each function *)
+Variable fr : nat -> nat.     (* number of results of each function *)
 
 Fixpoint compile_expr (g : cenv) (pc : nat) (e : expr) (m : mode) {struct e} : code :=
   let tail := match m with MVal => [] | MJmp cond t => [jmp_on cond t] end in
@@ -134,10 +138,31 @@ Fixpoint compile_args (g : cenv) (pc : nat) (l : list expr) : code :=
 
 (* ---------- statements ---------- *)
 
+(* targets of a multiple assignment, given last target first *)
+Fixpoint count_some {A} (xs : list (option A)) : nat :=
+  match xs with [] => 0 | Some _ :: t => S (count_some t) | None :: t => count_some t end.
+
+Fixpoint alloc_results (g : cenv) (next : nat) (xs : list (option ident)) : cenv :=
+  match xs with
+  | [] => g
+  | None :: t => alloc_results g next t
+  | Some x :: t => alloc_results ((x, SLoc next) :: g) (S next) t
+  end.
+
+Fixpoint store_code (decl : bool) (g : cenv) (next : nat) (xs : list (option ident)) : code :=
+  match xs with
+  | [] => []
+  | None :: t => IDrop :: store_code decl g next t
+  | Some x :: t =>
+      if decl then IStLoc next :: store_code decl g (S next) t
+      else store (slot_of g x) :: store_code decl g next t
+  end.
+
 (* number of declarations = local slots taken (vars.localsCnt only grows) *)
 Fixpoint ndecl (s : stmt) : nat :=
   match s with
   | SDecl _ _ => 1
+  | SCallAssign true xs _ _ => count_some (rev xs)
   | SSeq a b => ndecl a + ndecl b
   | SIf _ a => ndecl a
   | SIfElse _ a b => ndecl a + ndecl b
@@ -150,6 +175,7 @@ Fixpoint ndecl (s : stmt) : nat :=
 Fixpoint env_after (g : cenv) (next : nat) (s : stmt) : cenv :=
   match s with
   | SDecl x _ => (x, SLoc next) :: g
+  | SCallAssign true xs _ _ => alloc_results g next (rev xs)
   | SSeq a b => env_after (env_after g next a) (next + ndecl a) b
   | _ => g
   end.
@@ -165,9 +191,10 @@ Fixpoint size_stmt (s : stmt) : nat :=
   | SIfElse c a b => size_expr true c + size_stmt a + 1 + size_stmt b
   | SFor i c po b => size_stmt i + size_expr false c + 1 + size_stmt b + size_stmt po + 1
   | SBreak | SContinue => 1
-  | SReturn e => size_expr false e + 1
+  | SReturn es => size_args (rev es) + 1
   | SBlock a => size_stmt a
-  | SExpr e => size_expr false e + 1
+  | SCall f es => size_args es + length (emit_reverse (length es)) + 1 + fr f
+  | SCallAssign _ xs f es => size_args es + length (emit_reverse (length es)) + 1 + 2 + length xs
   end.
 
 (* [brk] / [cont]: where break / continue of the innermost enclosing loop go *)
@@ -204,9 +231,13 @@ Fixpoint compile_stmt (g : cenv) (next pc brk cont : nat) (s : stmt) {struct s} 
       ++ compile_stmt g1 (n1 + ndecl b) ppost endl ppost po ++ [IJmp start]
   | SBreak => [IJmp brk]
   | SContinue => [IJmp cont]
-  | SReturn e => compile_expr g pc e MVal ++ [IRet]
+  | SReturn es => compile_args g pc (rev es) ++ [IRet]
   | SBlock a => compile_stmt g next pc brk cont a
-  | SExpr e => compile_expr g pc e MVal ++ [IDrop]
+  | SCall f es =>
+      compile_args g pc es ++ emit_reverse (length es) ++ ICall (fe f) :: repeat IDrop (fr f)
+  | SCallAssign decl xs f es =>
+      compile_args g pc es ++ emit_reverse (length es) ++ ICall (fe f)
+      :: IPush (Z.of_nat (length xs)) :: IReverseN :: store_code decl g next (rev xs)
   end.
 
 (* ---------- functions and programs ---------- *)
@@ -248,10 +279,13 @@ Fixpoint compile_funcs (base : nat) (p : list func) : code :=
 
 End WithEntries.
 
+Definition nres (p : program) (f : nat) : nat :=
+  match nth_error p f with Some fn => f_nres fn | None => 0 end.
+
 (* functions are laid out in declaration order *)
-Fixpoint entries (base : nat) (p : list func) : list nat :=
-  match p with [] => [] | f :: t => base :: entries (base + size_func f) t end.
+Fixpoint entries (fr : nat -> nat) (base : nat) (p : list func) : list nat :=
+  match p with [] => [] | f :: t => base :: entries fr (base + size_func fr f) t end.
 
-Definition entry (p : program) (f : nat) : nat := nth f (entries 0 p) 0.
+Definition entry (p : program) (f : nat) : nat := nth f (entries (nres p) 0 p) 0.
 
-Definition compile_program (p : program) : code := compile_funcs (entry p) 0 p.
+Definition compile_program (p : program) : code := compile_funcs (entry p) (nres p) 0 p.
